@@ -714,6 +714,8 @@ type rcvSender struct {
 	ctrl      bool
 	conn      bool
 	completed int
+	fc        *rcvFCWrap
+	leak      string
 }
 
 func (s *rcvSender) onHasConnectionData()                           { s.conn = true }
@@ -721,7 +723,42 @@ func (s *rcvSender) onHasStreamData(protocol.StreamID, *SendStream) {}
 func (s *rcvSender) onHasStreamControlFrame(protocol.StreamID, streamControlFrameGetter) {
 	s.ctrl = true
 }
-func (s *rcvSender) onStreamCompleted(protocol.StreamID) { s.completed++ }
+func (s *rcvSender) onStreamCompleted(protocol.StreamID) {
+	s.completed++
+	// C04, conservation: when the stream is done, every byte up to the final size has been returned as connection-level
+	// credit - read by the application (AddBytesRead) or abandoned once the final size was known (Abandon credits the rest)
+	if fc := s.fc; fc != nil && fc.finalKnown && fc.read != fc.final && !fc.abandonedAfterFinal && s.leak == "" {
+		s.leak = fmt.Sprintf("final size %d, %d bytes read, Abandon not called after the final size was known", fc.final, fc.read)
+	}
+}
+
+// rcvFCWrap observes what the stream tells its (real) flow controller.
+type rcvFCWrap struct {
+	flowcontrol.StreamFlowController
+	read, final         protocol.ByteCount
+	finalKnown          bool
+	abandonedAfterFinal bool
+}
+
+func (w *rcvFCWrap) AddBytesRead(n protocol.ByteCount) (bool, bool) {
+	w.read += n
+	return w.StreamFlowController.AddBytesRead(n)
+}
+
+func (w *rcvFCWrap) UpdateHighestReceived(off protocol.ByteCount, final bool, now monotime.Time) error {
+	err := w.StreamFlowController.UpdateHighestReceived(off, final, now)
+	if err == nil && final {
+		w.finalKnown, w.final = true, off
+	}
+	return err
+}
+
+func (w *rcvFCWrap) Abandon() {
+	if w.finalKnown {
+		w.abandonedAfterFinal = true
+	}
+	w.StreamFlowController.Abandon()
+}
 
 type rcvReq struct {
 	peek bool
@@ -889,8 +926,9 @@ func (r *rcvStreamRun) init() {
 	r.cfc = flowcontrol.NewConnectionFlowController(protocol.ByteCount(cwin), protocol.ByteCount(2*cwin),
 		func(protocol.ByteCount) bool { return true }, rtt, utils.DefaultLogger)
 	sfc := flowcontrol.NewStreamFlowController(rcvStreamIDv, r.cfc, protocol.ByteCount(swin), protocol.ByteCount(2*swin), 0, rtt, utils.DefaultLogger)
-	r.snd = &rcvSender{}
-	r.str = newReceiveStream(rcvStreamIDv, r.snd, sfc)
+	fcw := &rcvFCWrap{StreamFlowController: sfc}
+	r.snd = &rcvSender{fc: fcw}
+	r.str = newReceiveStream(rcvStreamIDv, r.snd, fcw)
 	r.streamCredit, r.connCredit = int(swin), int(cwin)
 	r.fp = wire.NewFrameParser(true, true, false)
 	r.wbuf = make([]byte, 0, 1600)
@@ -1469,6 +1507,11 @@ func (r *rcvStreamRun) segBounds(a, b int64, fin bool) (lo, hi int, ok bool) {
 func (r *rcvStreamRun) exec(op rcvOp) {
 	res := r.res
 	res.Logf("op %+v", op)
+	defer func() {
+		if r.snd.leak != "" && !res.Failed() {
+			res.Fail("stream completed although unread bytes were never returned as connection-level credit", "%s", r.snd.leak)
+		}
+	}()
 	switch op.K {
 	case "seg":
 		lo, hi, ok := r.segBounds(op.A, op.B, op.F)
